@@ -43,6 +43,8 @@ DECL_GARBAGE = [
     ('{m}: "a;b" !', 'bad-priority'), ('{m} {{a:b}}', 'nested-block'), ('{m}: a,, b', 'double-comma'), ('{m}: 1 //', 'double-slash'),
     ('.{m}: x', 'delim'), ('{m}: rgb(1,2)', 'bad-color'), ('{m}: url(a b)', 'bad-url'), ('{m}: #12', 'bad-hash'), ('!{m}: x', 'delim'), ('{m}:x!', 'bad-priority'),
     ('<!-- {m}: x', 'cdo'), ('{m}: x -->', 'cdc'), ('{m}: calc(1 +)', 'bad-calc'), ('{m}: ((a))', 'nested-parens'), ('{m}: [({{a;b}})]', 'nested-mixed'),
+    ('translate(1px) {m}', 'function-first'), ('rgb(1, 2): {m}', 'function-first'), ('\\7B {m}: x', 'escaped-delimiter-ident'), ('{m} \\28 : x', 'escaped-delimiter-ident'),
+    ('{m} ~= x', 'attr-operator-outside'),
 ]  # fmt: skip
 RULE_GARBAGE = [
     ('{m} ! b {{x:1}}', 'selector-delim'), ('{m} $ {{x:1}}', 'selector-delim'), ('{m} > {{x:1}}', 'dangling-combinator'), ('.1{m} {{x:1}}', 'bad-class'),
@@ -51,6 +53,15 @@ RULE_GARBAGE = [
     ('1{m} {{x:1}}', 'number'), ('{{x:{m}}}', 'no-selector'), ('{m} {m} ( {{ }} ) {{x:1}}', 'block-in-parens'),
     ('{m}:not() {{x:1}}', 'empty-not'), ('{m}..b {{x:1}}', 'double-dot'), ('{m} + + b {{x:1}}', 'double-combinator'), ('#{m}# {{x:1}}', 'bad-hash'),
     ('zz|{m} {{x:1}}', 'undeclared-prefix'), ('{m}:nth-child( {{x:1}} ) {{y:2}}', 'block-in-function'), ('{m} [a="b{{"] ! {{x:1}}', 'brace-in-string'),
+    # (round 2) identifiers that are escaped delimiters, attribute operators outside [], constructs that begin with a function token
+    ('{m} \\7B  ! {{x:1}}', 'escaped-delimiter-ident'), ('{m} \\28  ! {{x:1}}', 'escaped-delimiter-ident'),
+    ('{m} \\5B  ! {{x:1}}', 'escaped-delimiter-ident'), ('{m} \\7D  ! {{x:1}}', 'escaped-delimiter-ident'), ('{m} \\{{ ! {{x:1}}', 'escaped-delimiter-ident'),
+    ('{m} ~= b {{x:1}}', 'attr-operator-outside'), ('{m} |= b c {{x:1}}', 'attr-operator-outside'), ('{m} ^= {{x:1}}', 'attr-operator-outside'), ('*= {m} b {{x:1}}', 'attr-operator-outside'),
+    ('{m}$=b c {{x:1}}', 'attr-operator-outside'), ('rgb(1, 2) {m} {{y:2}}', 'function-first'), ('translate(1px) {m} ! {{y:2}}', 'function-first'), ('f(g(1)) {m} {{y:2}}', 'function-first'),
+]  # fmt: skip
+PAGE_GARBAGE = [
+    # (a valid margin box whose only declaration is invalid stays as an empty box: that is containment, so only the box itself is damaged here)
+    ('@top-left {m} ! {{content:"x"}}', 'bad-margin-box-prelude'), ('@top-right {m}( {{content:"x"}} ) {{y:1}}', 'bad-margin-box-prelude'),
 ]  # fmt: skip
 AT_GARBAGE = [
     ('@{m};', 'unknown'), ('@{m} a b;', 'unknown'), ('@{m} {{a{{b:c}}}}', 'unknown-block'), ('@{m} a(b;c) [d] {{e}}', 'unknown-nesting'),
@@ -148,6 +159,8 @@ def inject(rng, stmts, marker):
             return None
         st, idx, where = rng.choice(blocks)
         tmpl, tag = rng.choice(DECL_GARBAGE)
+        if st[0] == 'page' and rng.random() < 0.5:
+            tmpl, tag = rng.choice(PAGE_GARBAGE)
         items = list(st[idx])
         pos = rng.randint(0, len(items))
         follows = items[pos][0] if pos < len(items) else 'end'
@@ -175,6 +188,13 @@ def inject(rng, stmts, marker):
     for i, st in enumerate(stmts):
         if st[0] in ('charset', 'import', 'namespace'):
             first = i + 1
+    if kind == 'rule' and first > 0 and rng.random() < 0.25:
+        # a malformed statement is ignored, so it does not end the @import section (CSS 2.1 4.1.5: "after any non-ignored statement")
+        lo = 1 if stmts[0][0] == 'charset' else 0
+        pos = rng.randint(lo, first - 1) if first - 1 >= lo else first
+        follows = stmts[pos][0] if pos < len(stmts) else 'end'
+        stmts.insert(pos, ('raw', tmpl.format(m=marker)))
+        return stmts, kind, tag, 'prologue:' + follows
     if tag in ('misplaced-import', 'misplaced-charset', 'misplaced-namespace'):
         # must come after a rule that ends the prologue
         cands = [i + 1 for i, st in enumerate(stmts) if st[0] in ('style', 'media', 'page', 'fontface') and i + 1 > first]
@@ -334,8 +354,13 @@ def replay(ctx, case):
     if case.get('kind') == 'injection':
         from checks.c03 import project_nonempty
 
-        p_base = norm(project_nonempty(parser.parseString(case['base'])))
-        p_dam = norm(strip_marked(project_nonempty(parser.parseString(case['damaged']))))
+        feats = case.get('features') or ['garbage.%s.%s' % tuple(case.get('garbage', ['?', '?']))]
+        try:
+            p_base = norm(project_nonempty(parser.parseString(case['base'])))
+            p_dam = norm(strip_marked(project_nonempty(parser.parseString(case['damaged']))))
+        except Exception as e:
+            ctx.violation('injection.exception', case, {'tb': core.short_tb(e)}, features=feats, site=core.raise_site(e))
+            return
         d = P.diff(p_dam, p_base)
         if d is not None:
             ctx.violation('injection.containment', case, {'diff': d}, features=case.get('features') or ['garbage.%s.%s' % tuple(case.get('garbage', ['?', '?']))])
